@@ -89,7 +89,7 @@ type replayResult struct {
 }
 
 // testOverlay = session overlay + harness _test.go files.
-func (s *Session) testOverlayJSON(extraBlank []string) (string, error) {
+func (s *Session) testOverlayJSON(tag string, extraBlank []string) (string, error) {
 	ov := map[string][]byte{}
 	for k, v := range s.Overlay {
 		ov[k] = v
@@ -102,7 +102,7 @@ func (s *Session) testOverlayJSON(extraBlank []string) (string, error) {
 		}
 		return nil
 	})
-	dir := filepath.Join(s.OutDir, "overlay_test")
+	dir := filepath.Join(s.OutDir, "overlay_test_"+tag)
 	p, err := helper.WriteOverlayJSON(dir, ov)
 	if err != nil {
 		return "", err
@@ -112,6 +112,9 @@ func (s *Session) testOverlayJSON(extraBlank []string) (string, error) {
 		b, _ := os.ReadFile(p)
 		var m struct{ Replace map[string]string }
 		json.Unmarshal(b, &m)
+		if m.Replace == nil {
+			m.Replace = map[string]string{}
+		}
 		for _, f := range extraBlank {
 			m.Replace[f] = ""
 		}
@@ -143,7 +146,7 @@ func (s *Session) buildReplayer(run HarnessRun) *replayer {
 			blank = append(blank, filepath.Join(pkgDir, e.Name()))
 		}
 	}
-	ovj, err := s.testOverlayJSON(blank)
+	ovj, err := s.testOverlayJSON(strings.ReplaceAll(run.Mod+"_"+run.Dir, "/", "_"), blank)
 	if err != nil {
 		r.err = err
 		return r
